@@ -5,17 +5,17 @@ import os
 VERIF = os.path.dirname(os.path.dirname(os.path.abspath(__file__)))
 ALL = ['C%02d' % i for i in range(1, 21)]
 
-CLAIMED = {
-    'C20': dict(cat='proof', ref='DESIGN.md section 6, C20',
-                text='Coq theorems pg_exact_spec / pg_float_spec / pg_generic_spec (termination, validity of the result, '
-                     'error iff no factorisation, for every mpi_size and maxima), pg_blocks_nonempty, pg_layouts_connected; '
-                     'the model is tied to process_grid.py by differential execution on an exhaustive box and random '
-                     'cases, with a brute-force divisor oracle.',
-                note='Trusted: Coq kernel, PrimFloat primitives (binary64), extraction (ExtrOcamlBasic), OCaml float '
-                     'closure for the ratio test, harness. The float-rounding hypothesis of pg_float_spec is checked per '
-                     'instance, not proved.',
-                tech='Coq proof of a fuelled Gallina model + differential correspondence (extracted OCaml, vm_compute cross-check)'),
-}
+CLAIMED = {}
+for _p in sorted(os.listdir(os.path.join(VERIF, 'harness', 'claims'))):
+    if _p.endswith('.json'):
+        CLAIMED[_p[:-5]] = json.load(open(os.path.join(VERIF, 'harness', 'claims', _p)))
+NA = {}
+_na = os.path.join(VERIF, 'harness', 'claims', 'not_applicable.txt')
+if os.path.exists(_na):
+    for _l in open(_na):
+        if _l.strip() and not _l.startswith('#'):
+            _k, _r = _l.strip().split(None, 1)
+            NA[_k] = _r
 
 NOT_YET = 'check not built yet in this snapshot of /verif (see DESIGN.md section 10 for the order of work)'
 
@@ -49,7 +49,7 @@ def main():
                                        'tied to /repo by harness/props/*.py'}],
         'checks': checks,
         'notes': 'fix: commits in /repo repair defects 1-5 and 8 of DESIGN.md section 9; KNOWN_FINDINGS.txt lists the rest.',
-        'not_applicable': [{'property_id': p, 'reason': NOT_YET} for p in ALL if p not in CLAIMED],
+        'not_applicable': [{'property_id': p, 'reason': NA.get(p, NOT_YET)} for p in ALL if p not in CLAIMED],
     }
     with open(os.path.join(VERIF, 'MANIFEST.json'), 'w') as f:
         json.dump(man, f, indent=1)
